@@ -352,7 +352,7 @@ def js_expr(e):
     if k == "bin":
         return "(%s %s %s)" % (js_expr(e[2]), inv[e[1]], js_expr(e[3]))
     if k == "un":
-        return "(%s%s)" % ({"JNeg": "-", "JBnot": "~", "JNot": "!"}[e[1]], js_expr(e[2]))
+        return "(%s(%s))" % ({"JNeg": "-", "JBnot": "~", "JNot": "!"}[e[1]], js_expr(e[2]))
     if k == "asg":
         return "(%s = %s)" % (js_expr(("var", e[1])), js_expr(e[2]))
     if k == "comma":
